@@ -93,10 +93,15 @@ GUARDED = {
 # with upload-ignore patterns: a rename or swap between an ignored and a non-ignored path is
 # executed on the remote although the ignored side was never uploaded (NoSuchFile / wrong content)
 GUARD_IGNORE_MOVES = "ignore_moves"
+# an upload that spans several revisions can contain a rename into a directory that the same
+# upload creates (added, or a file that became a directory): renames are executed before
+# additions and kind changes, so finish_renames fails with NoSuchFile (similar: ReadError when a
+# directory and a file trade kinds across the span)
+GUARD_SPAN = "multi_revision_span"
 
 
 def generate(rng, tier):
-    lifted = sorted(g for g in list(GUARDED) + [GUARD_IGNORE_MOVES] if rng.random() < 0.07)
+    lifted = sorted(g for g in list(GUARDED) + [GUARD_IGNORE_MOVES, GUARD_SPAN] if rng.random() < 0.07)
     ignore = rng.choice(IGNORE_SETS) if rng.random() < 0.25 else None
     opts = {
         "inside_links": True,
@@ -118,7 +123,8 @@ def generate(rng, tier):
         specs[0]["actions"].append(["add", ".bzrignore-upload", "ignore-upload-id", FILE, "".join(p + "\n" for p in ignore), False])
     plan = {"specs": specs, "ignore": ignore, "final_full": rng.random() < 0.2, "fault": None, "lifted": lifted, "skip": []}
     # some commits are not uploaded (the next upload then spans several revisions)
-    plan["skip"] = sorted(i for i in range(n - 1) if rng.random() < 0.2)
+    if GUARD_SPAN in lifted:
+        plan["skip"] = sorted(i for i in range(n - 1) if rng.random() < 0.3)
     if rng.random() < 0.45:
         ups = [i for i in range(n) if i not in plan["skip"]]
         kind = rng.choice(["err_before", "crash", "crash"])
@@ -358,7 +364,14 @@ def execute(sim, plan):
                 kindsig = fault["kind"] + ("" if fault["kind"] != "crash" else ("-applied" if fault["applied"] else "-dropped"))
                 sim.probe("interrupted_" + kindsig)
                 if err is None and not crashed:
-                    sim.fail("fault_swallowed", ["fault_swallowed", mode, kindsig], f"{mode} upload of {rid}: the injected {fault['err']} error at remote op {fault['at']} was swallowed; upload reported success")
+                    # the uploader handled the error itself (e.g. a failed rmdir is retried in
+                    # finish_deletions): then the result must simply be right
+                    sim.probe("injected_error_absorbed")
+                    judge(rid, mode + "-absorbed-error", sigtail=kindsig)
+                    uploaded = rid
+                    span = []
+                    sim.event("upload", i, mode, "absorbed")
+                    continue
                 m = marker(root)
                 if m not in (uploaded, rid):
                     sim.fail("marker", ["marker", "interrupted", kindsig], f"interrupted upload of {rid}: marker holds {m!r}, expected {uploaded!r} or {rid!r}")
